@@ -358,13 +358,14 @@ def prove_split(eng, gt, hyps, pc_upto=None):
 
 
 def run_case(prop_id, name, body, kwargs, patches, *, timeout_ms=30000, max_paths=20000, n_validate=2, seed=0,
-             expect_tags=()):
+             expect_tags=(), partial_ok=False, skip_sym=False):
     """Run one case in sym mode, then translator validation.  Returns a CaseResult (plain dict)."""
     t0 = time.time()
     res = CaseResult(case=name, kwargs={k: (v if isinstance(v, (int, float, str, bool, type(None))) else str(v)) for k, v in kwargs.items()},
                      paths=0, goals=0, unsat=0, sat=0, unknown=0, nontrivial=0, exc_paths=0, reachable=0,
                      solver_s=0.0, violations=[], inconclusive=[], samples=[], tags=[], stub_hits={}, validate={})
     eng = Engine(timeout_ms=timeout_ms, max_paths=max_paths)
+    eng.partial_ok = partial_ok
     seen_goals = set()
     tags = set()
     try:
@@ -376,7 +377,7 @@ def run_case(prop_id, name, body, kwargs, patches, *, timeout_ms=30000, max_path
                 m = M("sym")
                 return body(m, **kwargs)
 
-            for kind, out in eng.explore(fn):
+            for kind, out in (() if skip_sym else eng.explore(fn)):
                 res["paths"] += 1
                 tags |= m.tags
                 for k, v in m.stub_hits.items():
@@ -442,9 +443,11 @@ def run_case(prop_id, name, body, kwargs, patches, *, timeout_ms=30000, max_path
     except Exception as e:  # harness/engine error: fail closed
         res["inconclusive"].append(dict(label="engine-error", why="".join(traceback.format_exception(e))[-1500:]))
     res["tags"] = sorted(tags)
-    for t in expect_tags:
+    res["concrete_exact_only"] = bool(skip_sym)
+    for t in (() if skip_sym else expect_tags):
         if t not in tags:
             res["inconclusive"].append(dict(label="reachability", why=f"path class '{t}' was never reached"))
+    res["truncated_paths_left"] = eng.stats.get("truncated", 0)
     res["slow"] = sorted(res.get("slow", []), reverse=True)[:3]
     res["abstract_unsat"] = eng.stats.get("abstract_unsat", 0)
     res["solver_s"] = round(eng.stats["solver_s"], 3)
